@@ -36,6 +36,9 @@ pub fn spaces(tier: Tier) -> Vec<Space<'static>> {
     let d = docs({
         let mut u = univ::relation_universe(base, true);
         u.extend(refmodel::gen::strkey_docs());
+        u.extend(refmodel::gen::tagv_relation_docs());
+        let mut seen = std::collections::HashSet::new();
+        u.retain(|x| seen.insert(x.clone()));
         u
     });
     let n = d.vals.len();
